@@ -159,8 +159,15 @@ def exact_rate_games(res, games, label, kind_on_mismatch="correspondence", drv=N
                 break
             pm, ps = priors[slot] if 0 <= slot < len(priors) else (0.0, 1.0)
             fl = Fraction(ps) * Fraction(1, 10 ** 15) if ps > 0 else Fraction(1, 10 ** 300)
-            dmu = rel_dev(imu, mmu, max(abs(mmu - Fraction(pm)), fl))
-            dsg = rel_dev(isig, msig, max(abs(msig - Fraction(ps)), fl))
+            if _ta and _tb:
+                dmu = rel_dev(imu, mmu, max(abs(mmu - Fraction(pm)), fl))
+                dsg = rel_dev(isig, msig, max(abs(msig - Fraction(ps)), fl))
+            else:
+                # the value left the trace on its way out (a conversion the tape cannot follow): it is a double, good to an ulp of
+                # the VALUE, not of the update
+                res.count("exact_outputs_outside_the_trace")
+                dmu = rel_dev(imu, mmu, max(abs(mmu), Fraction(g["beta"]))) / 1e4
+                dsg = rel_dev(isig, msig, max(abs(msig), fl)) / 1e4
             worst = max(worst, dmu, dsg)
             if dmu > EXACT_TOL or dsg > EXACT_TOL:
                 res.fail(kind_on_mismatch,
